@@ -218,7 +218,7 @@ static Exec run_one(const std::vector<uint8_t>& prefix, int shutdownAt, vr::Ctx&
             en.push_back(lastActor);
         bool acceptorLast = gSlowAcceptor && sim::actor_ready(0) && ng_is_parked(0) && ng_kind(0) == 1;
         for (int a = 0; a < ng_count(); ++a) // acceptor, workers, and (asyncReply) the handlers' own threads
-            if (sim::actor_ready(a) && !(gSplitReply && a == lastActor) && !(acceptorLast && a == 0))
+            if (sim::actor_ready(a) && !(gSplitReply && a == lastActor) && !(acceptorLast && a == 0) && !(gFlushReply && a > W))
                 en.push_back(a);
         for (int j = 0; j < C; ++j)
         {
@@ -228,6 +228,12 @@ static Exec run_one(const std::vector<uint8_t>& prefix, int shutdownAt, vr::Ctx&
         }
         if (acceptorLast)
             en.push_back(0);
+        // (flushReply) the handlers' own threads are slow: by default they answer when nothing else can move; a deviation
+        // lets one of them answer at any earlier point, e.g. in the middle of another connection's flush
+        if (gFlushReply)
+            for (int a = W + 1; a < ng_count(); ++a)
+                if (sim::actor_ready(a))
+                    en.push_back(a);
         // a connection that answers would-block starts accepting data again (last in the order: everything else first)
         std::vector<int> heldFds;
         if (gSplitReply)
